@@ -11,5 +11,5 @@ for p in "$@"; do
   echo "== $p rc=$rc"; echo "$out" | grep -E "^(VIOLATION|KNOWN-FINDING|BUILD-FAILED|HARNESS-ERROR|C[0-9]+:)" | cut -c1-300 | grep -v "^KNOWN" 
 done
 cp .cache/evidence_keep/*.json evidence/
-git -C /repo checkout -- .
+git -C /repo checkout -- . && git -C /repo clean -fdq src tests
 (cd /verif/harness && CARGO_NET_OFFLINE=true cargo build --offline >/dev/null 2>&1)
